@@ -271,6 +271,15 @@ func (e *Env) RunProperty(id string) int {
 		if _, ok := r.Reach["end"]; !ok && len(r.Violations) == 0 {
 			problems = append(problems, instName(in)+": VACUOUS: no path reaches the end of the harness")
 		}
+		// every reachability witness written in the harness must be hit (a label that a parameter choice makes unreachable is
+		// written with a leading '?'); skipped when a path already ended in a violation
+		if len(r.Violations) == 0 && r.Fn != nil {
+			for _, lab := range gosym.ReachLabels(r.Fn) {
+				if _, ok := r.Reach[lab]; !ok && !strings.HasPrefix(lab, "?") {
+					problems = append(problems, instName(in)+": VACUOUS: reachability witness \""+lab+"\" is never reached")
+				}
+			}
+		}
 		results = append(results, instResult{in, r})
 	}
 	// ---- counterexamples and validation traces -> native replay
